@@ -79,7 +79,16 @@ class Recorder:
                 cur.update(size=size, case=case_j, detail=str(detail)[:2000])
 
     # -- merging across shards ---------------------------------------------
+    def _take_transport_counts(self):
+        import sys
+        wm = sys.modules.get("dv.world")
+        if wm is not None:
+            for t, n in list(wm.TRANSPORT_COUNTS.items()):
+                self.extra[f"worlds_{t}"] = self.extra.get(f"worlds_{t}", 0) + n
+            wm.TRANSPORT_COUNTS.clear()
+
     def dump(self) -> dict:
+        self._take_transport_counts()
         return {"evaluations": self.evaluations, "fps": self.fps,
                 "classes": dict(self.classes), "samples": self.samples,
                 "violations": self.violations, "excluded": dict(self.excluded),
@@ -121,6 +130,7 @@ def finish(rec: Recorder, *, tier: str, level: str, rule: str,
            known_lines: list[str] | None = None) -> int:
     """Write evidence, print VIOLATION lines, return the exit code."""
     pid = rec.pid
+    rec._take_transport_counts()
     known = findings.known_for(pid)
     out_violations = []
     for sig, v in sorted(rec.violations.items()):
